@@ -518,6 +518,114 @@ impl C14 {
     }
 }
 
+impl C14 {
+    /// scale: one stream with several MiB of plaintext in which many estimator candidates tie (stored blocks,
+    /// Huffman-only, run-length only, fastest level), called repeatedly and from several threads at once
+    fn judge_large(&self, k: u64, ctx: &mut Ctx) -> bool {
+        let mut r = Rng::derive(self.seed, 0x1404, k, 0);
+        ctx.phase("nonverdict: building a stream with several MiB of plaintext");
+        let n = (4 << 20) + 1000 + r.usize_below(3 << 20);
+        let p = crate::plain::text(&mut r, n);
+        let (level, strategy, what) = [(6, 3, "rle"), (0, 0, "stored"), (1, 0, "level 1"), (6, 2, "huffman-only")][((k / 12) % 4) as usize];
+        let d = match crate::comp::zlib_raw(&p, level, strategy, 15, 8, &[]) {
+            Some(d) => d,
+            None => return false,
+        };
+        let mut file = wrap::junk_clean(&mut r, 10);
+        file.extend(wrap::zlib_wrap(&d, &p, 0x9C));
+        let label = format!("zlib {} stream with {} bytes of plaintext ({} compressed)", what, p.len(), d.len());
+        ctx.count("large_plaintext_streams");
+        ctx.phase("verdict: repeated and concurrent calls on a stream with several MiB of plaintext");
+        let stream = Arc::new(d);
+        let file = Arc::new(file);
+        let base_a = digest_analysis(&cur::analyze(&stream, false));
+        let base_e = digest_out(&cur::expand(&file));
+        ctx.nontrivial(base_a ^ base_e.rotate_left(17));
+        let mut got: Vec<(String, u64, u64)> = vec![];
+        for i in 0..2 {
+            got.push((format!("sequential repeat {} of decompress_deflate_stream", i + 1), digest_analysis(&cur::analyze(&stream, false)), base_a));
+        }
+        got.push(("sequential repeat of expand_zlib_chunks".into(), digest_out(&cur::expand(&file)), base_e));
+        let mut handles = vec![];
+        for t in 0..6 {
+            let (stream, file) = (stream.clone(), file.clone());
+            handles.push(std::thread::spawn(move || {
+                if t % 3 == 2 {
+                    (format!("expand_zlib_chunks on thread {} of 6", t), digest_out(&cur::expand(&file)), false)
+                } else {
+                    (format!("decompress_deflate_stream on thread {} of 6", t), digest_analysis(&cur::analyze(&stream, false)), true)
+                }
+            }));
+        }
+        for h in handles {
+            if let Ok((w, dgst, is_a)) = h.join() {
+                got.push((w, dgst, if is_a { base_a } else { base_e }));
+            }
+        }
+        ctx.count_n("evaluations", got.len() as u64 + 2);
+        let mut bad = false;
+        for (w, dgst, want) in got {
+            if dgst != want {
+                bad = true;
+                let f = if w.contains("expand") { "expand_zlib_chunks" } else { "decompress_deflate_stream" };
+                ctx.violation(
+                    "large_input_differs",
+                    &format!("large_input_differs|{}", f),
+                    &format!("{} returned digest {:016x} where the first call returned {:016x} on {}", w, dgst, want, label),
+                    json!({"function": f, "input": label}),
+                    &stream[..stream.len().min(4096)],
+                );
+                break;
+            }
+        }
+        bad
+    }
+
+    /// call history at scale: the same calls on this thread before and after one call whose expanded form
+    /// exceeds 128 MiB (the only size constant in the crate)
+    fn judge_after_huge(&self, k: u64, ctx: &mut Ctx) -> bool {
+        ctx.phase("nonverdict: building the input set");
+        let inputs = input_set(self.seed, k ^ 0x5151, 4, 8000);
+        let funcs = [3usize, 5, 6, 7, 0];
+        ctx.phase("verdict: same calls before and after a call with more than 128 MiB of expanded data");
+        let before: Vec<Vec<u64>> = inputs.iter().map(|i| funcs.iter().map(|&f| eval(f, i)).collect()).collect();
+        let mut r = Rng::derive(self.seed, 0x1403, k, 0);
+        let n = (128 << 20) + 1 + r.usize_below(2 << 20);
+        {
+            let mut f = wrap::junk_clean(&mut r, 1 << 16);
+            while f.len() < n {
+                let l = (n - f.len()).min(f.len());
+                f.extend_from_within(..l);
+            }
+            let a = cur::zstd_compress(&f);
+            let b = c12::call(true, &f, 1 << 20, Place::GuardAfter);
+            ctx.count(&format!("huge_call:compress_zstd_{}:wrapper_status_{}", if a.is_ok() { "ok" } else { "not_ok" }, b.status));
+        }
+        let after: Vec<Vec<u64>> = inputs.iter().map(|i| funcs.iter().map(|&f| eval(f, i)).collect()).collect();
+        ctx.count_n("evaluations", (2 * inputs.len() * funcs.len() + 2) as u64);
+        ctx.count("histories_with_a_call_above_128MiB");
+        let mut bad = false;
+        for (i, (x, y)) in before.iter().zip(after.iter()).enumerate() {
+            for (j, &f) in funcs.iter().enumerate() {
+                if x[j] != y[j] {
+                    bad = true;
+                    ctx.violation(
+                        "history_dependence",
+                        &format!("history_dependence|{}|after_huge_call", FUNC_NAMES[f]),
+                        &format!(
+                            "{} returned a different result for unchanged arguments after a call on this thread whose expanded form was {} bytes (> 128 MiB) on {}",
+                            FUNC_NAMES[f], n + 6, inputs[i].what
+                        ),
+                        json!({"function": FUNC_NAMES[f], "input": inputs[i].what, "huge": n}),
+                        &inputs[i].file,
+                    );
+                }
+            }
+        }
+        bad
+    }
+}
+
 impl Monitor for C14 {
     fn ncases(&self) -> u64 {
         self.n
@@ -529,6 +637,12 @@ impl Monitor for C14 {
 
     fn run_case(&mut self, k: u64, ctx: &mut Ctx) {
         self.judge_set(k, ctx, false);
+        if k % 12 == 3 {
+            self.judge_large(k, ctx);
+        }
+        if k % 50 == 5 {
+            self.judge_after_huge(k, ctx);
+        }
     }
 
     fn selftest(&mut self) -> Result<String, String> {
